@@ -3,7 +3,7 @@
    failing inputs (PROPFAIL); the model is only used to attribute a failure to a known cause.
    Definitions only. *)
 From Coq Require Import List String ZArith Bool Ascii.
-From Cog Require Export Model.GoSem Model.GoSemSpec08.
+From Cog Require Export Model.GoSem Model.GoSemSpec08 Model.GoSemSpec01.
 Import ListNotations.
 Local Open Scope list_scope.
 Local Open Scope string_scope.
@@ -118,22 +118,62 @@ Definition pf_strict_overreject (c : gcase) : bool :=
   existsb (fun dj => (negb (seqb (ob_strict (snd dj)) "ok") && negb (seqb (ob_strict (snd dj)) "") &&
                       strict_ok_object ctx p n (fst dj))%bool) (combine docs obs).
 
-(* attribution: some object reachable by reference is not a struct but carries constraints
-   (resolvesToConstraints only follows references to structs) *)
-Fixpoint has_constraints (t : ty) : bool :=
-  match t with
-  | TScalar _ _ _ cs => nonempty cs
-  | TArray _ v => has_constraints v
-  | TMap _ _ v => has_constraints v
-  | TStruct _ _ fs => existsb (fun f => has_constraints (f_type f)) fs
-  | _ => false
-  end.
-Definition ctx_alias_constraints (ctx : schemas) : bool :=
-  existsb (fun s => existsb (fun ko => (negb (is_struct (o_type (snd ko))) && has_constraints (o_type (snd ko)))%bool)
-                            (s_objects s)) ctx.
-Definition case_alias_constraints (c : gcase) : bool := let '(ctx, _, _, _, _, _) := c in ctx_alias_constraints ctx.
+(* attribution: the context breaks the side condition of validate_iff_partial *)
+Definition case_alias_constraints (c : gcase) : bool := let '(ctx, _, _, _, _, _) := c in negb (ctx_alias_free ctx).
 
 (* attribution of strict-decoder disagreements: what the model says happens *)
 Definition model_strict_panics (c : gcase) : bool :=
   let '(ctx, p, n, docs, _, _) := c in
   existsb (fun d => match strict_object ctx p n d with GPanic => true | _ => false end) docs.
+
+(* ---------- C01 on the observed decode outcomes and re-encodings (cases hold only documents the
+   source schema's reference validator accepted) ---------- *)
+Definition pf_decode_std (c : gcase) : bool :=
+  let '(_, _, _, _, obs, _) := c in existsb (fun o => negb (seqb (ob_std o) "ok")) obs.
+Definition pf_decode_strict (c : gcase) : bool :=
+  let '(_, _, _, _, obs, _) := c in existsb (fun o => negb (seqb (ob_strict o) "ok")) obs.
+(* the re-encoded document is not JSON-equal to the original modulo omitted null members *)
+Definition pf_reencode_std (c : gcase) : bool :=
+  let '(_, _, _, docs, obs, _) := c in
+  existsb (fun dj => match ob_enc (snd dj) with Some e => negb (json_eq_mod_null (fst dj) e) | None => false end)
+          (combine docs obs).
+Definition pf_reencode_strict (c : gcase) : bool :=
+  let '(_, _, _, docs, obs, _) := c in
+  existsb (fun dj => match ob_senc (snd dj) with Some e => negb (json_eq_mod_null (fst dj) e) | None => false end)
+          (combine docs obs).
+
+(* the statement of go_roundtrip_nf_partial evaluated on the model for the case's documents: a document
+   in the safe fragment on which the conclusion fails (must never happen: the theorem says so) *)
+Definition in_safe_fragment (ctx : schemas) (p n : string) (d : json) : bool :=
+  (ir_valid_object ctx p n d && roundtrip_safe ctx p n d && json_wf d)%bool.
+Definition mm_rt_spec (c : gcase) : bool :=
+  let '(ctx, p, n, docs, _, _) := c in
+  (negb (case_unmodelled c) &&
+   existsb (fun d => (in_safe_fragment ctx p n d && negb (roundtrip_holds ctx p n d))%bool) docs)%bool.
+Definition some_doc_safe (c : gcase) : bool :=
+  let '(ctx, p, n, docs, _, _) := c in existsb (in_safe_fragment ctx p n) docs.
+(* a property failure on the real output for a document of the safe fragment: not explained by the exclusions *)
+Definition pf_in_safe_fragment (c : gcase) : bool :=
+  let '(ctx, p, n, docs, obs, _) := c in
+  existsb (fun dj => let d := fst dj in let o := snd dj in
+                     (in_safe_fragment ctx p n d &&
+                      (negb (seqb (ob_std o) "ok") || negb (seqb (ob_strict o) "ok") ||
+                       match ob_enc o with Some e => negb (json_eq_mod_null d e) | None => false end))%bool)
+          (combine docs obs).
+
+(* the statements of Props/C08.v evaluated on the model for the case's documents (must never fail) *)
+Definition mm_c08_spec (c : gcase) : bool :=
+  let '(ctx, p, n, docs, _, _) := c in
+  (negb (case_unmodelled c) && struct_object ctx p n &&
+   existsb (fun d =>
+     (match decode_object ctx p n d with
+      | GOk v =>
+          let a := validate_object ctx p n v in let b := violations_object ctx p n v in
+          (nonempty (msub a b) || (ctx_alias_free ctx && negb (strings_eqb a b)))%bool
+      | _ => false
+      end ||
+      (json_wf d && json_null_free d &&
+       (match strict_object ctx p n d with
+        | GOk _ => negb (strict_ok_object ctx p n d)
+        | _ => (strict_ok_object ctx p n d && roundtrip_safe ctx p n d)%bool
+        end)))%bool) docs)%bool.
